@@ -31,9 +31,10 @@ Section FCopy.
   Variables tn tn' : str -> str.
   Variables acc acc' : str -> str -> Prop.
   Variables rh rh' wh wh' : fhandle -> str -> nat -> Prop.
+  Variables hid hid' anc anc' : str -> Prop.
   Variables tag tag' : fstag.
-  Hypothesis HLa : api_laws a V V' tn acc rh wh.
-  Hypothesis HLa' : api_laws a' V' V tn' acc' rh' wh'.
+  Hypothesis HLa : api_laws a V V' tn acc rh wh hid anc.
+  Hypothesis HLa' : api_laws a' V' V tn' acc' rh' wh' hid' anc'.
   Hypothesis HFa : fault_laws a V tag rh wh.
   Hypothesis HFa' : fault_laws a' V' tag' rh' wh'.
 
@@ -79,7 +80,7 @@ Section FCopy.
     fs I (ignore_permission (chown_to a info p)) w fl.
   Proof.
     intros Hat HI Hread.
-    destruct (lstat_step a V V' tn acc rh wh HLa w p n Hat) as (old & w1 & Hrun1 & Hsr1 & HV1 & _).
+    destruct (lstat_step a V V' tn acc rh wh hid anc HLa w p n Hat) as (old & w1 & Hrun1 & Hsr1 & HV1 & _).
     apply fstrict_ignore_permission. unfold chown_to.
     eapply fstrict_bind_ok; [exact Hrun1 | |].
     - apply fstrict_call; [apply (fcall_any_tag tag); apply (flaw_lstat _ _ _ _ _ HFa) | exact (at_node_quiet V w p n Hat) | exact HI].
@@ -92,26 +93,26 @@ Section FCopy.
     quiet w -> swf (V w) -> sdirect (V w) p -> p <> s_root -> fi_kind fi = KDir ->
     (0 <= fi_uid fi)%Z -> (0 <= fi_gid fi)%Z ->
     (V w !! p = None \/ sdir (V w) p) ->
-    K (V w !! p) -> (forall m, K (Some (Dir m))) ->
+    K (V w !! p) -> (forall m, K (Some (Dir m))) -> ~ hid p ->
     fs (fmid K w p) (copy_dir a p fi) w fl.
   Proof.
-    intros Hq Hwf Hdir Hne Hk Hu Hg Hcase HK0 HKd.
-    destruct (mkdirall_step a V V' tn acc rh wh HLa w p (perm9 fi) Hq Hwf Hdir Hcase)
+    intros Hq Hwf Hdir Hne Hk Hu Hg Hcase HK0 HKd Hnh.
+    destruct (mkdirall_step a V V' tn acc rh wh hid anc HLa w p (perm9 fi) Hq Hwf Hdir Hcase Hnh)
       as (w1 & m1 & Hrun1 & Hpost1 & Hp1).
     pose proof Hpost1 as (Hsr01 & Hwf1 & He01).
     assert (Hat1 : at_node V w1 p (Dir m1)).
     { split; [| split]; [| exact Hwf1 | exact Hp1]. eapply quiet_same_rest; eassumption. }
-    destruct (lstat_step a V V' tn acc rh wh HLa w1 p (Dir m1) Hat1)
+    destruct (lstat_step a V V' tn acc rh wh hid anc HLa w1 p (Dir m1) Hat1)
       as (nfi & w2 & Hrun2 & Hsr2 & HV2 & Him2 & Hmt2).
     pose proof (read_at_node V V' w1 w2 p _ Hat1 Hsr2 HV2) as Hat2.
     destruct Him2 as (_ & Hperm2 & _).
-    destruct (fix_mode_step a V V' tn acc rh wh HLa w2 p (Dir m1) nfi fi Hat2 (not_is_link_dir m1) Hperm2)
+    destruct (fix_mode_step a V V' tn acc rh wh hid anc HLa w2 p (Dir m1) nfi fi Hat2 (not_is_link_dir m1) Hperm2)
       as (w3 & Hrun3 & Hupd3).
     set (n3 := with_meta (Dir m1) (set_perm (mode12 fi))) in *.
     assert (Hat3 : at_node V w3 p n3).
     { eapply upd_at_node; [exact Hat2 | exact Hupd3 | reflexivity |].
       unfold n3, perm12, mode12. simpl. rewrite !land4095_idem. reflexivity. }
-    destruct (fix_mt_step a V V' tn acc rh wh HLa w3 p n3 nfi fi Hat3 (not_is_link_dir _) Hmt2)
+    destruct (fix_mt_step a V V' tn acc rh wh hid anc HLa w3 p n3 nfi fi Hat3 (not_is_link_dir _) Hmt2)
       as (w4 & Hrun4 & Hupd4).
     set (n4 := with_meta n3 (set_mt (fi_mt fi))) in *.
     assert (Hat4 : at_node V w4 p n4).
@@ -165,7 +166,7 @@ Section FCopy.
     assert (Hself : fcopying c (m_perm m) w p w).
     { split; [apply same_rest_refl |]. exists m, pos. split; [symmetry; apply insert_id; exact Hp | reflexivity]. }
     simpl io_copy.
-    pose proof (law_hread _ _ _ _ _ _ _ HLa' w src ps pos ms c Hq Hrh Hps) as Hread.
+    pose proof (law_hread _ _ _ _ _ _ _ _ _ HLa' w src ps pos ms c Hq Hrh Hps) as Hread.
     destruct (skipn pos c) as [|x rest] eqn:Hskip.
     - destruct Hread as (h' & w1 & Hrun & HV'1 & Hsr1).
       eapply fstrict_bind_ok; [exact Hrun | |].
@@ -178,7 +179,7 @@ Section FCopy.
       pose proof (quiet_same_rest V' w w1 Hq Hsr1') as Hq1.
       assert (Hp1 : V w1 !! p = Some (File m (firstn pos c))) by (rewrite HV1; exact Hp).
       assert (Hlen : length (firstn pos c) = pos) by (apply firstn_length_le; exact Hpos).
-      destruct (law_hwrite _ _ _ _ _ _ _ HLa w1 dst p pos m (firstn pos c) data Hq1 Hwh Hp1 Hlen)
+      destruct (law_hwrite _ _ _ _ _ _ _ _ _ HLa w1 dst p pos m (firstn pos c) data Hq1 Hwh Hp1 Hlen)
         as (h2 & t' & (w2 & Hrun2 & HV2 & Hsr2) & Hwh2).
       pose proof (quiet_same_rest V' w1 w2 Hq1 Hsr2) as Hq2.
       assert (Hp2 : V w2 !! p = Some (File (set_mt t' m) (firstn (pos + length data) c))).
@@ -246,11 +247,11 @@ Section FCopy.
     quiet w -> swf (V w) -> sdirect (V w) p ->
     (V w !! p = None \/ exists m0 c0, V w !! p = Some (File m0 c0)) ->
     rh' src ps 0 -> V' w !! ps = Some (File ms c) -> small c ->
-    K (V w !! p) -> (forall m' c', is_prefix c' c -> K (Some (File m' c'))) ->
+    K (V w !! p) -> (forall m' c', is_prefix c' c -> K (Some (File m' c'))) -> ~ hid p ->
     fs (fmid K w p) (write_file a p perm src) w fl.
   Proof.
-    intros Hq Hwf Hdir Hcase Hrh Hps Hsmall HK0 HKf.
-    destruct (openfile_step a V V' tn acc rh wh HLa w p perm Hq Hwf Hdir Hcase)
+    intros Hq Hwf Hdir Hcase Hrh Hps Hsmall HK0 HKf Hnh.
+    destruct (openfile_step a V V' tn acc rh wh hid anc HLa w p perm Hq Hwf Hdir Hcase Hnh)
       as (file & w1 & m1 & Hrun1 & Hwh & Hpost1 & Hp1).
     pose proof Hpost1 as (Hsr01 & Hwf1 & He01).
     assert (Hat1 : at_node V w1 p (File m1 [])).
@@ -263,7 +264,7 @@ Section FCopy.
       assert (Hmono : (chunk_size * (tree_fuel - 2) <= chunk_size * (tree_fuel - 1))%nat).
       { apply Nat.mul_le_mono_l. lia. }
       lia. }
-    destruct (io_copy_spec a a' V V' tn tn' acc acc' rh rh' wh wh' HLa HLa'
+    destruct (io_copy_spec a a' V V' tn tn' acc acc' rh rh' wh wh' hid hid' anc anc' HLa HLa'
                 tree_fuel w1 file src p ps 0 m1 ms c (proj1 Hat1) Hp1
                 ltac:(lia) Hwh Hrh Hps1 Hfuel1 Hfuel2)
       as (w2 & m2 & Hrun2 & Hsr2 & HV2 & Hperm2).
@@ -304,16 +305,16 @@ Section FCopy.
     (0 <= fi_uid fi)%Z -> (0 <= fi_gid fi)%Z ->
     (V w !! p = None \/ exists m0 c0, V w !! p = Some (File m0 c0)) ->
     rh' src ps 0 -> V' w !! ps = Some (File ms c) -> small c ->
-    K (V w !! p) -> (forall m' c', is_prefix c' c -> K (Some (File m' c'))) ->
+    K (V w !! p) -> (forall m' c', is_prefix c' c -> K (Some (File m' c'))) -> ~ hid p ->
     fs (fmid K w p) (copy_file a p fi src) w fl.
   Proof.
-    intros Hq Hwf Hwf' Hdir Hk Hu Hg Hcase Hrh Hps Hsmall HK0 HKf.
+    intros Hq Hwf Hwf' Hdir Hk Hu Hg Hcase Hrh Hps Hsmall HK0 HKf Hnh.
     assert (HKc : forall m', K (Some (File m' c))) by (intros m'; apply HKf; apply is_prefix_refl).
-    destruct (write_file_spec a a' V V' tn tn' acc acc' rh rh' wh wh' HLa HLa'
-                w p (perm9 fi) src ps ms c Hq Hwf Hdir Hcase Hrh Hps Hsmall)
+    destruct (write_file_spec a a' V V' tn tn' acc acc' rh rh' wh wh' hid hid' anc anc' HLa HLa'
+                w p (perm9 fi) src ps ms c Hq Hwf Hdir Hcase Hrh Hps Hsmall Hnh)
       as (w1 & m1 & Hrun1 & Hpost1 & Hat1).
     pose proof Hpost1 as (Hsr01 & Hwf1 & He01).
-    destruct (chown_to_step a V V' tn acc rh wh HLa w1 p (File m1 c) fi Hat1 (not_is_link_file _ _) Hu Hg)
+    destruct (chown_to_step a V V' tn acc rh wh hid anc HLa w1 p (File m1 c) fi Hat1 (not_is_link_file _ _) Hu Hg)
       as (w2 & n2 & Hrun2 & Hupd2 & Hn2 & Huid2 & Hgid2).
     assert (Hn2' : exists m2, n2 = File m2 c /\ perm12 n2).
     { pose proof (swf_lookup_perm12 _ _ _ (proj1 (proj2 Hat1)) (proj2 (proj2 Hat1))) as H12.
@@ -322,11 +323,11 @@ Section FCopy.
       - eexists. split; [reflexivity |]. apply (chown_node_perm12 (File m1 c)). exact H12. }
     destruct Hn2' as (m2 & -> & H12).
     pose proof (upd_at_node V V' w1 w2 p _ _ Hat1 Hupd2 eq_refl H12) as Hat2.
-    destruct (lstat_step a V V' tn acc rh wh HLa w2 p (File m2 c) Hat2)
+    destruct (lstat_step a V V' tn acc rh wh hid anc HLa w2 p (File m2 c) Hat2)
       as (nfi & w3 & Hrun3 & Hsr3 & HV3 & Him3 & Hmt3).
     pose proof (read_at_node V V' w2 w3 p _ Hat2 Hsr3 HV3) as Hat3.
     destruct Him3 as (_ & Hperm3 & _).
-    destruct (fix_mode_step a V V' tn acc rh wh HLa w3 p (File m2 c) nfi fi Hat3 (not_is_link_file _ _) Hperm3)
+    destruct (fix_mode_step a V V' tn acc rh wh hid anc HLa w3 p (File m2 c) nfi fi Hat3 (not_is_link_file _ _) Hperm3)
       as (w4 & Hrun4 & Hupd4).
     set (n4 := with_meta (File m2 c) (set_perm (mode12 fi))) in *.
     assert (H12_4 : perm12 n4).
@@ -344,7 +345,7 @@ Section FCopy.
     { apply (fmid_upd w w1 w4 p n4 Hpost1 Hupd14 (at_node_swf _ _ _ Hat4)). unfold n4. simpl. apply HKc. }
     unfold copy_file. rewrite Hk. apply fstrict_wrap_other.
     eapply fstrict_bind_ok; [exact Hrun1 | |].
-    { exact (write_file_strict w p (perm9 fi) src ps ms c Hq Hwf Hdir Hcase Hrh Hps Hsmall HK0 HKf). }
+    { exact (write_file_strict w p (perm9 fi) src ps ms c Hq Hwf Hdir Hcase Hrh Hps Hsmall HK0 HKf Hnh). }
     eapply fstrict_bind_ok; [exact Hrun2 | |].
     { apply (chown_to_strict _ w1 p (File m1 c) fi Hat1 Hm1).
       intros wx Hsrx HVx. exact (fmid_read w w1 wx p Hm1 Hsrx HVx). }
@@ -362,18 +363,18 @@ Section FCopy.
     quiet w -> swf (V w) -> swf (V' w) -> snolinkpar (V' w) p -> V' w !! p = Some (Link ms t) ->
     sdirect (V w) p -> V w !! p = None -> fi_kind fi = KLink ->
     t <> [] -> acc t p ->
-    K None -> (forall m', K (Some (Link m' (tn t)))) ->
+    K None -> (forall m', K (Some (Link m' (tn t)))) -> ~ hid p ->
     fs (fmid K w p) (copy_symlink a' a p fi) w fl.
   Proof.
-    intros Hq Hwf Hwf' Hnlp' Hlink Hdir Hnone Hk Htne Hacc HK0 HKl.
-    destruct (law_readlink _ _ _ _ _ _ _ HLa' w p ms t Hq Hwf' Hnlp' Hlink)
+    intros Hq Hwf Hwf' Hnlp' Hlink Hdir Hnone Hk Htne Hacc HK0 HKl Hnh.
+    destruct (law_readlink _ _ _ _ _ _ _ _ _ HLa' w p ms t Hq Hwf' Hnlp' Hlink)
       as (w1 & Hrun1 & HV'1 & Hsr1).
     destruct (same_rest_swap V V' w w1 HV'1 Hsr1) as [HV1 Hsr1'].
     pose proof (quiet_same_rest V' w w1 Hq Hsr1') as Hq1.
     assert (Hwf1 : swf (V w1)) by (rewrite HV1; exact Hwf).
     assert (Hdir1 : sdirect (V w1) p) by (rewrite HV1; exact Hdir).
     assert (Hnone1 : V w1 !! p = None) by (rewrite HV1; exact Hnone).
-    destruct (law_symlink _ _ _ _ _ _ _ HLa w1 t p Hq1 Hwf1 Hdir1 Hnone1 Htne Hacc)
+    destruct (law_symlink _ _ _ _ _ _ _ _ _ HLa w1 t p Hq1 Hwf1 Hdir1 Hnone1 Htne Hacc Hnh)
       as (m2 & s2 & (w2 & Hrun2 & HV2 & Hsr2) & Hp2 & Hperm2 & Heqv2 & Hwf2).
     subst s2.
     pose proof (quiet_same_rest V' w1 w2 Hq1 Hsr2) as Hq2.
@@ -420,8 +421,9 @@ Section FRealPath.
   Variable tn : str -> str.
   Variable acc : str -> str -> Prop.
   Variables rh wh : fhandle -> str -> nat -> Prop.
+  Variables hid anc : str -> Prop.
   Variable tag : fstag.
-  Hypothesis HLa : api_laws a V V' tn acc rh wh.
+  Hypothesis HLa : api_laws a V V' tn acc rh wh hid anc.
   Hypothesis HFa : fault_laws a V tag rh wh.
   Variable fl : list fault.
 
@@ -443,7 +445,7 @@ Section FRealPath.
       { intros e w0 [_ Hnf]. rewrite Hnf. reflexivity. }
       intros x w1 Htry Hq1.
       destruct (V w !! q) as [nd|] eqn:Hsq.
-      + destruct (law_lstat_some _ _ _ _ _ _ _ HLa w q nd Hq Hwf Hnlpq Hsq)
+      + destruct (law_lstat_some _ _ _ _ _ _ _ _ _ HLa w q nd Hq Hwf Hnlpq Hsq)
           as (fi & (w1' & Hrun1 & HV1 & Hsr1) & (Hkind & _) & _).
         rewrite (try_ok _ w w1' fi Hrun1) in Htry. injection Htry as Ex Ew. subst x. subst w1'.
         assert (Hrd1 : rdq w w1) by (split; assumption).
@@ -469,7 +471,7 @@ Section FRealPath.
             - exact Hq1.
             - rewrite HV1. exact Hwf. }
           destruct (fi_kind fi); [exact Hrec | exact Hrec | contradiction Hk; reflexivity].
-      + destruct (law_lstat_none _ _ _ _ _ _ _ HLa w q Hq Hwf Hnlpq Hsq)
+      + destruct (law_lstat_none _ _ _ _ _ _ _ _ _ HLa w q Hq Hwf Hnlpq Hsq)
           as (e & w1' & Hrun1 & Hnf & HV1 & Hsr1).
         rewrite (try_err _ w w1' e Hrun1) in Htry. injection Htry as Ex Ew. subst x. subst w1'.
         unfold not_found in Hnf. rewrite Hnf. apply fstrict_ret. exact Hq1.
@@ -503,10 +505,11 @@ Section FTry.
   Variables tnb tnk : str -> str.
   Variables accb acck : str -> str -> Prop.
   Variables rhb rhk whb whk : fhandle -> str -> nat -> Prop.
+  Variables hid anc : str -> Prop.
   Variable B0 : store.
   Variables tagb tagk : fstag.
 
-  Hypothesis HLb : base_laws base Vb Vk tnb accb rhb whb.
+  Hypothesis HLb : base_laws base Vb Vk tnb accb rhb whb hid anc.
   Hypothesis HLk : backup_laws backup Vb Vk tnk acck rhk whk.
   Hypothesis HFb : fault_laws base Vb tagb rhb whb.
   Hypothesis HFk : fault_laws backup Vk tagk rhk whk.
@@ -517,8 +520,8 @@ Section FTry.
   Variable fl : list fault.
   Hypothesis Hsingle : single fl.
 
-  Let Lb : api_laws base Vb Vk tnb accb rhb whb := HLb.
-  Let Lk : api_laws backup Vk Vb tnk acck rhk whk := HLk.
+  Let Lb : api_laws base Vb Vk tnb accb rhb whb hid anc := HLb.
+  Let Lk : api_laws backup Vk Vb tnk acck rhk whk nohid nohid := HLk.
 
   Local Notation inv := (Inv Vb Vk B0).
   Definition lw (w : world) : world := set_faults w fl.
@@ -687,11 +690,11 @@ Section FTry.
         rewrite Hq in He. destruct (Vk w1 !! q) as [nq1|] eqn:Hq1; [| contradiction He].
         destruct (swf_below_dir (Vk w1) p q nq1 (inv_wf_k _ _ _ _ HI1) Hq1 Hin) as [md Hmd].
         rewrite Hmd in Hnone. discriminate Hnone. }
-      destruct (law_remove_leaf _ _ _ _ _ _ _ Lk wu p n Hqu Hwfu (sdirect_snolinkpar _ _ Hdiru) Hp Hnc Hne)
+      destruct (law_remove_leaf _ _ _ _ _ _ _ _ _ Lk wu p n Hqu Hwfu (sdirect_snolinkpar _ _ Hdiru) Hp Hnc Hne (not_nohid _))
         as (s' & (w3' & Hrun3' & HV3 & Hsr3) & Hnone3 & Heqv3 & Hwf3).
       rewrite Hrun3 in Hrun3'. injection Hrun3' as _ <-. subst s'.
       exact (Hgoal (proj1 Hsr3) (proj1 (proj2 Hsr3)) Hwf3 Heqv3 Hnone3).
-    - destruct (law_remove_none _ _ _ _ _ _ _ Lk wu p Hqu Hwfu (sdirect_snolinkpar _ _ Hdiru) Hp)
+    - destruct (law_remove_none _ _ _ _ _ _ _ _ _ Lk wu p Hqu Hwfu (sdirect_snolinkpar _ _ Hdiru) Hp)
         as (e3 & w3' & Hrun3' & _ & HV3 & Hsr3).
       rewrite Hrun3 in Hrun3'. injection Hrun3' as _ <-.
       apply (Hgoal (proj1 Hsr3) (proj1 (proj2 Hsr3))); rewrite HV3;
@@ -725,7 +728,7 @@ Section FTry.
                  (r = MOk tt -> tracked (unfault w') sub).
   Proof.
     intros HI Hnlp Hanc Hnl. pose proof (inv_quiet _ _ _ _ HI) as Hq.
-    destruct (bd_body_spec base backup Vb Vk tnb tnk accb acck rhb rhk whb whk B0 HLb HLk HwfB0
+    destruct (bd_body_spec base backup Vb Vk tnb tnk accb acck rhb rhk whb whk hid anc B0 HLb HLk HwfB0
                 wq sub HI Hnlp Hanc Hnl) as (rq & wqf & Hrunq & Hnhq & HIq & Hextq & Htrq & _).
     assert (Hfin : cleanrun (bd_body base backup sub) wq fl ->
               exists r w', bd_body base backup sub (lw wq) = (r, w') /\ tbpost [sub] wq r w' /\
@@ -745,11 +748,11 @@ Section FTry.
       destruct info; apply cleanrun_plain; try apply fplain_ret; exact Hq. }
     specialize (Hnl eq_refl).
     destruct (Vb wq !! sub) as [n|] eqn:Hb.
-    2:{ destruct (backup_required_none base backup Vb Vk tnb tnk accb acck rhb rhk whb whk B0 HLb HLk
+    2:{ destruct (backup_required_none base backup Vb Vk tnb tnk accb acck rhb rhk whb whk hid anc B0 HLb HLk
                     wq sub HI Hnlp Hi Hb) as (w1 & Hrun1 & HI1 & _).
         apply Hfin. eapply cleanrun_bind_ok; [exact Hrun1 | exact Hc1 |].
         apply cleanrun_plain; [apply fplain_ret | exact (inv_quiet _ _ _ _ HI1)]. }
-    destruct (backup_required_some base Vb Vk tnb accb rhb whb B0 HLb wq sub n HI Hnlp Hi Hb)
+    destruct (backup_required_some base Vb Vk tnb accb rhb whb hid anc B0 HLb wq sub n HI Hnlp Hi Hb)
       as (fi & w1 & Hrun1 & Hsa1 & Him).
     pose proof (Inv_transfer Vb Vk B0 wq w1 HI Hsa1) as HI1.
     pose proof Hsa1 as (HVb1 & HVk1 & Hi1 & Hcr1 & Hfa1).
@@ -770,12 +773,12 @@ Section FTry.
         { rewrite HVk1. eapply backup_sdirect; eassumption. }
         assert (Hnone1 : Vk w1 !! sub = None).
         { apply (untracked_backup_none Vb Vk B0); assumption. }
-        destruct (copy_dir_spec backup Vk Vb tnk acck rhk whk Lk w1 sub fi
-                    Hq1 (inv_wf_k _ _ _ _ HI1) Hdir1 Hne Hk Hu Hg (or_introl Hnone1))
+        destruct (copy_dir_spec backup Vk Vb tnk acck rhk whk nohid nohid Lk w1 sub fi
+                    Hq1 (inv_wf_k _ _ _ _ HI1) Hdir1 Hne Hk Hu Hg (or_introl Hnone1) (not_nohid _))
           as (w2 & m' & Hrun2 & (Hsr2 & _) & _).
         destruct (fstrict_cases _ _ _ _ _
-                    (copy_dir_strict backup Vk Vb tnk acck rhk whk tagk Lk HFk fl Kany w1 sub fi
-                       Hq1 (inv_wf_k _ _ _ _ HI1) Hdir1 Hne Hk Hu Hg (or_introl Hnone1) I (fun _ => I)))
+                    (copy_dir_strict backup Vk Vb tnk acck rhk whk nohid nohid tagk Lk HFk fl Kany w1 sub fi
+                       Hq1 (inv_wf_k _ _ _ _ HI1) Hdir1 Hne Hk Hu Hg (or_introl Hnone1) I (fun _ => I) (not_nohid _)))
           as [Hc2 | (e & w' & Hrun2f & Hh & Hc' & Hf' & Hns & Hs1 & Hex & ws & Hmid & Hqs & Hsim)].
         * apply Hfin. eapply cleanrun_bind_ok; [exact Hrun1 | exact Hc1 |]. cbv beta iota.
           eapply cleanrun_bind_ok; [exact (try_ok _ w1 w2 tt Hrun2) | apply cleanrun_try; exact Hc2 |].
@@ -795,7 +798,7 @@ Section FTry.
       { rewrite HVk1. eapply backup_sdirect; eassumption. }
       assert (Hnone1 : Vk w1 !! sub = None).
       { apply (untracked_backup_none Vb Vk B0); assumption. }
-      destruct (law_remove_none _ _ _ _ _ _ _ Lk w1 sub Hq1 (inv_wf_k _ _ _ _ HI1)
+      destruct (law_remove_none _ _ _ _ _ _ _ _ _ Lk w1 sub Hq1 (inv_wf_k _ _ _ _ HI1)
                   (sdirect_snolinkpar _ _ Hdir1) Hnone1)
         as (e3 & w3 & Hrun3 & _ & HVk3 & Hsr3).
       assert (Hc2 : cleanrun (copy_dir backup sub fi) w1 fl).
@@ -964,7 +967,7 @@ Section FTry.
                  (r = MOk tt -> tracked (unfault w') p).
   Proof.
     intros HI Hnlp Hun Hb Him Hanc. pose proof (inv_quiet _ _ _ _ HI) as Hq.
-    destruct (tb_file_spec base backup Vb Vk tnb tnk accb acck rhb rhk whb whk B0 HLb HLk Hsmall HwfB0
+    destruct (tb_file_spec base backup Vb Vk tnb tnk accb acck rhb rhk whb whk hid anc B0 HLb HLk Hsmall HwfB0
                 wq p fi m c HI Hnlp Hun Hb Him Hanc) as (wqf & Hrunq & HIq & Hextq & Htrq).
     assert (Hfin : cleanrun (tb_file base backup p fi) wq fl ->
               exists r w', tb_file base backup p fi (lw wq) = (r, w') /\ tbpost [p] wq r w' /\
@@ -974,7 +977,7 @@ Section FTry.
       rewrite (unfault_lw wqf (inv_quiet _ _ _ _ HIq)). exact Htrq. }
     unfold tb_file in Hfin |- *.
     (* the run without plan, call by call *)
-    destruct (law_open_file _ _ _ _ _ _ _ Lb wq p m c Hq (inv_wf_b _ _ _ _ HI) Hnlp Hb)
+    destruct (law_open_file _ _ _ _ _ _ _ _ _ Lb wq p m c Hq (inv_wf_b _ _ _ _ HI) Hnlp Hb)
       as (sf & (w1 & Hrun1 & HVb1 & Hsr1) & Hrh).
     pose proof (same_all_base Vb Vk wq w1 HVb1 Hsr1) as Hsa1.
     pose proof (Inv_transfer Vb Vk B0 wq w1 HI Hsa1) as HI1.
@@ -992,9 +995,9 @@ Section FTry.
       destruct He0 as [_ <-]. exact (Hsmall p m0 c Hn0). }
     pose proof (backup_sdirect Vb Vk B0 HwfB0 w1 p _ HI1 Hun1 Hb1 Hanc1) as Hdir1.
     pose proof (untracked_backup_none Vb Vk B0 w1 p HI1 Hun1 Hne) as Hnone1.
-    destruct (copy_file_spec backup base Vk Vb tnk tnb acck accb rhk rhb whk whb Lk Lb
+    destruct (copy_file_spec backup base Vk Vb tnk tnb acck accb rhk rhb whk whb nohid hid nohid anc Lk Lb
                 w1 p fi sf p m c Hq1 (inv_wf_k _ _ _ _ HI1) (inv_wf_b _ _ _ _ HI1)
-                Hdir1 (proj1 Him) Hu Hg (or_introl Hnone1) Hrh Hb1 Hsm)
+                Hdir1 (proj1 Him) Hu Hg (or_introl Hnone1) Hrh Hb1 Hsm (not_nohid _))
       as (w2 & m' & Hrun2 & (Hsr2 & Hwf2 & Heqv2) & Hk2 & Hmeta & Hmt).
     pose proof Hsr2 as (HVb2 & Hi2 & Hcr2 & Hfa2).
     pose proof (quiet_same_rest Vb w1 w2 Hq1 Hsr2) as Hq2.
@@ -1002,8 +1005,8 @@ Section FTry.
     set (w3 := with_infos w2 (<[p := Some fi]> (w_infos w2))).
     assert (Hq3 : quiet w3) by (exact (quiet_with_infos w2 _ Hq2)).
     assert (HVb3 : Vb w3 = Vb w1).
-    { unfold w3. rewrite (law_infos_indep _ _ _ _ _ _ _ Lb). exact HVb2. }
-    assert (HVk3 : Vk w3 = Vk w2) by (unfold w3; apply (law_infos_indep _ _ _ _ _ _ _ Lk)).
+    { unfold w3. rewrite (law_infos_indep _ _ _ _ _ _ _ _ _ Lb). exact HVb2. }
+    assert (HVk3 : Vk w3 = Vk w2) by (unfold w3; apply (law_infos_indep _ _ _ _ _ _ _ _ _ Lk)).
     assert (Hi3 : w_infos w3 = <[p := Some fi]> (w_infos w1)) by (unfold w3; simpl; rewrite Hi2; reflexivity).
     assert (HI3 : inv w3).
     { apply (Inv_track Vb Vk B0 w1 w3 p (Some fi) HI1 Hun1 Hi3 HVb3).
@@ -1020,7 +1023,7 @@ Section FTry.
     assert (Hext3 : ext Vb wq w3 [p]).
     { eapply ext_trans; [exact (same_all_ext Vb Vk wq w1 [p] Hsa1)
                         | exact (ext_track Vb w1 w3 p (Some fi) HVb3 Hi3 Hun1) | apply incl_refl | apply incl_refl]. }
-    destruct (law_hclose_r _ _ _ _ _ _ _ Lb w3 sf p 0%nat Hq3 Hrh) as (w4 & Hrun4 & HVb4 & Hsr4).
+    destruct (law_hclose_r _ _ _ _ _ _ _ _ _ Lb w3 sf p 0%nat Hq3 Hrh) as (w4 & Hrun4 & HVb4 & Hsr4).
     pose proof (set_info_new p (Some fi) w2 Hun2) as Hrun3. fold w3 in Hrun3.
     (* with the plan *)
     destruct (fcall_cases (eq tagb) (a_open base p) wq fl (flaw_open _ _ _ _ _ HFb p) Hq)
@@ -1030,9 +1033,9 @@ Section FTry.
     destruct (cleanrun_result _ wq fl _ w1 Hc1 Hrun1) as (_ & _ & Hrunf1 & Hsp1).
     fold (lw wq) in Hrunf1, Hsp1. fold (lw w1) in Hrunf1, Hsp1.
     destruct (fstrict_cases _ _ _ _ _
-                (copy_file_strict backup base Vk Vb tnk tnb acck accb rhk rhb whk whb tagk Lk Lb HFk fl Kany
+                (copy_file_strict backup base Vk Vb tnk tnb acck accb rhk rhb whk whb nohid hid nohid anc tagk Lk Lb HFk fl Kany
                    w1 p fi sf p m c Hq1 (inv_wf_k _ _ _ _ HI1) (inv_wf_b _ _ _ _ HI1)
-                   Hdir1 (proj1 Him) Hu Hg (or_introl Hnone1) Hrh Hb1 Hsm I (fun _ _ _ => I)))
+                   Hdir1 (proj1 Him) Hu Hg (or_introl Hnone1) Hrh Hb1 Hsm I (fun _ _ _ => I) (not_nohid _)))
       as [Hc2 | (e & w' & Hrun2f & Hh & Hc' & Hf' & Hns & Hs1 & Hex & ws & Hmid & Hqs & Hsim)].
     2:{ destruct (cleanupF w1 w' ws p HI1 Hun1 Hne Hnone1 Hdir1 Hmid Hqs Hsim Hc' Hf' (Hs1 Hsingle))
           as (x & w'' & Hcl & Hc'' & Hf'' & Hs'' & HI'' & HVb'' & Hi'').
@@ -1077,7 +1080,7 @@ Section FTry.
                  (r = MOk tt -> tracked (unfault w') p).
   Proof.
     intros HI Hnlp Hun Hb Him Hanc. pose proof (inv_quiet _ _ _ _ HI) as Hq.
-    destruct (tb_link_spec base backup Vb Vk tnb tnk accb acck rhb rhk whb whk B0 HLb HLk Hlinks HwfB0
+    destruct (tb_link_spec base backup Vb Vk tnb tnk accb acck rhb rhk whb whk hid anc B0 HLb HLk Hlinks HwfB0
                 wq p fi m t HI Hnlp Hun Hb Him Hanc) as (wqf & Hrunq & HIq & Hextq & Htrq).
     assert (Hfin : cleanrun (tb_link base backup p fi) wq fl ->
               exists r w', tb_link base backup p fi (lw wq) = (r, w') /\ tbpost [p] wq r w' /\
@@ -1094,14 +1097,14 @@ Section FTry.
     destruct (Hlinks p m0 t Hn0) as (_ & Htnk & Htne & _ & Hacc & Hperm0).
     pose proof (backup_sdirect Vb Vk B0 HwfB0 wq p _ HI Hun Hb Hanc) as Hdir.
     pose proof (untracked_backup_none Vb Vk B0 wq p HI Hun Hne) as Hnone.
-    destruct (copy_symlink_spec backup base Vk Vb tnk tnb acck accb rhk rhb whk whb Lk Lb
+    destruct (copy_symlink_spec backup base Vk Vb tnk tnb acck accb rhk rhb whk whb nohid hid nohid anc Lk Lb
                 wq p fi m t Hq (inv_wf_k _ _ _ _ HI) (inv_wf_b _ _ _ _ HI) Hnlp Hb
-                Hdir Hnone (proj1 Him) Hu Hg Htne Hacc)
+                Hdir Hnone (proj1 Him) Hu Hg Htne Hacc (not_nohid _))
       as (w2 & m' & Hrun2 & (Hsr2 & _) & _).
     destruct (fstrict_cases _ _ _ _ _
-                (copy_symlink_strict backup base Vk Vb tnk tnb acck accb rhk rhb whk whb tagk tagb Lk Lb HFk HFb fl Kany
+                (copy_symlink_strict backup base Vk Vb tnk tnb acck accb rhk rhb whk whb nohid hid nohid anc tagk tagb Lk Lb HFk HFb fl Kany
                    wq p fi m t Hq (inv_wf_k _ _ _ _ HI) (inv_wf_b _ _ _ _ HI) Hnlp Hb
-                   Hdir Hnone (proj1 Him) Htne Hacc I (fun _ => I)))
+                   Hdir Hnone (proj1 Him) Htne Hacc I (fun _ => I) (not_nohid _)))
       as [Hc2 | (e & w' & Hrun2f & Hh & Hc' & Hf' & Hns & Hs1 & Hex & ws & Hmid & Hqs & Hsim)].
     - apply Hfin. eapply cleanrun_bind_ok; [exact (try_ok _ wq w2 tt Hrun2) | apply cleanrun_try; exact Hc2 |].
       apply cleanrun_plain; [apply fplain_set_info_if_new | exact (quiet_same_rest Vb wq w2 Hq Hsr2)].
@@ -1171,14 +1174,14 @@ Section FTry.
       unfold is_dir_info in Ed. destruct (fi_kind fi); [reflexivity | discriminate Ed | discriminate Ed]. }
     destruct (Vb wq !! p) as [n|] eqn:Hb.
     2:{ (* did not exist *)
-      destruct (backup_required_none base backup Vb Vk tnb tnk accb acck rhb rhk whb whk B0 HLb HLk
+      destruct (backup_required_none base backup Vb Vk tnb tnk accb acck rhb rhk whb whk hid anc B0 HLb HLk
                   wq p HI Hnlp Hi Hb) as (w1 & Hrun1 & HI1 & Hext1 & Htr1).
       pose proof Hext1 as (HVb1 & _ & _).
       apply (Hrest None false w1 Hrun1 HI1 Hext1).
       apply (Hdirs_only None w1 HI1); [rewrite HVb1; exact Hnlp | unfold tracked; rewrite Htr1; discriminate |].
       right. reflexivity. }
     (* exists and is not yet tracked *)
-    destruct (backup_required_some base Vb Vk tnb accb rhb whb B0 HLb wq p n HI Hnlp Hi Hb)
+    destruct (backup_required_some base Vb Vk tnb accb rhb whb hid anc B0 HLb wq p n HI Hnlp Hi Hb)
       as (fi & w1 & Hrun1 & Hsa1 & Him).
     pose proof (Inv_transfer Vb Vk B0 wq w1 HI Hsa1) as HI1.
     pose proof Hsa1 as (HVb1 & HVk1 & Hi1 & Hcr1 & Hfa1).
@@ -1311,10 +1314,10 @@ Section FTry.
   Proof.
     intros H Hnlp. destruct (IF_parts w H) as (HI & Hq & Hlw & Hc).
     assert (Hnlpq : snolinkpar (Vb (unfault w)) n) by (rewrite Vb_unfault; exact Hnlp).
-    destruct (real_path_resolved_spec base Vb Vk tnb accb rhb whb Lb (unfault w) n Hq (inv_wf_b _ _ _ _ HI) Hnlpq)
+    destruct (real_path_resolved_spec base Vb Vk tnb accb rhb whb hid anc Lb (unfault w) n Hq (inv_wf_b _ _ _ _ HI) Hnlpq)
       as (w1 & Hrun1 & HVb1 & Hsr1).
     destruct (fstrict_cases _ _ _ _ _
-                (real_path_strict base Vb Vk tnb accb rhb whb tagb Lb HFb fl (unfault w) n Hq (inv_wf_b _ _ _ _ HI) Hnlpq))
+                (real_path_strict base Vb Vk tnb accb rhb whb hid anc tagb Lb HFb fl (unfault w) n Hq (inv_wf_b _ _ _ _ HI) Hnlpq))
       as [Hc1 | (e & w' & Hrun & Hh & Hc' & Hf' & Hns & Hs1 & Hex & ws & Hrd & Hqs & Hsim)].
     - destruct (cleanrun_result _ (unfault w) fl _ w1 Hc1 Hrun1) as (_ & Hq1 & Hrunf & Hsp).
       fold (lw (unfault w)) in Hrunf, Hsp. rewrite Hlw in Hrunf, Hsp.
@@ -1645,7 +1648,7 @@ Section FTry.
     { apply (flaw_user _ _ _ _ _ HFb n (unfault w2) w1 h).
       destruct (Hwhich (unfault w2) (MOk h) w1 Hclq) as [Ho | Hcr]; [right; left; exact Ho | right; right; exact Hcr]. }
     assert (Hfrm : framed Vb Vk (write_close h d) w1 [n]).
-    { apply (law_user_handle _ _ _ _ _ _ _ Lb (unfault w2) n (MOk h) w1 Hq2 (inv_wf_b _ _ _ _ HI2)).
+    { apply (law_user_handle _ _ _ _ _ _ _ _ _ Lb (unfault w2) n (MOk h) w1 Hq2 (inv_wf_b _ _ _ _ HI2)).
       - rewrite Vb_unfault, HVb2. exact Hnlp.
       - rewrite Vb_unfault, HVb2. exact Hnl.
       - exact (Hwhich (unfault w2) (MOk h) w1 Hclq).
@@ -1810,7 +1813,7 @@ Section FTry.
     destruct (IF_parts w4 H4) as (HI4 & Hq4 & _).
     destruct (framedF (a_rename base o n) w4 [o; n] (flaw_rename _ _ _ _ _ HFb o n) H4)
       as (r5 & w5 & Hrun5 & Hn5 & Hfr5 & Hsp5 & Hnb5).
-    { apply (law_user_rename _ _ _ _ _ _ _ Lb (unfault w4) o n Hq4 (inv_wf_b _ _ _ _ HI4));
+    { apply (law_user_rename _ _ _ _ _ _ _ _ _ Lb (unfault w4) o n Hq4 (inv_wf_b _ _ _ _ HI4));
         rewrite Vb_unfault, HVb04; assumption. }
     exists r5, w5. split; [exact Hrun5 | split].
     - exact (keepsF_frame P w w4 w5 r5 _ [o; n] Hn5 H4 Hext04 (fun q Hq => Hq) Hfr5 Htl
@@ -1901,12 +1904,12 @@ Section FTry.
                       same_rest Vk (unfault w) w1 /\
                       (forall fi, r = MOk fi -> exists nd, Vb w !! n = Some nd /\ info_matches fi nd)).
       { destruct (Vb w !! n) as [nd|] eqn:Hb.
-        - destruct (law_lstat_some _ _ _ _ _ _ _ Lb (unfault w) n nd Hq (inv_wf_b _ _ _ _ HI)
+        - destruct (law_lstat_some _ _ _ _ _ _ _ _ _ Lb (unfault w) n nd Hq (inv_wf_b _ _ _ _ HI)
                       ltac:(rewrite Vb_unfault; exact Hnlp) ltac:(rewrite Vb_unfault; exact Hb))
             as (fi & (w1 & Hrun & HV & Hsr) & Him & _).
           exists (MOk fi), w1. split; [exact Hrun | split; [exact HV | split; [exact Hsr |]]].
           intros fi' E. injection E as <-. exists nd. split; [reflexivity | exact Him].
-        - destruct (law_lstat_none _ _ _ _ _ _ _ Lb (unfault w) n Hq (inv_wf_b _ _ _ _ HI)
+        - destruct (law_lstat_none _ _ _ _ _ _ _ _ _ Lb (unfault w) n Hq (inv_wf_b _ _ _ _ HI)
                       ltac:(rewrite Vb_unfault; exact Hnlp) ltac:(rewrite Vb_unfault; exact Hb))
             as (e & w1 & Hrun & _ & HV & Hsr).
           exists (MErr e), w1. split; [exact Hrun | split; [exact HV | split; [exact Hsr |]]].
@@ -1938,9 +1941,14 @@ Section FTry.
     { intros e w3 Hrun3 HV3 Hsr3. exists (MErr e), w3. split; [exact Hrun3 | split; [discriminate |]].
       split; [exact (Inv_transfer Vb Vk B0 w2 w3 HI2 (same_all_base Vb Vk w2 w3 HV3 Hsr3)) |].
       split; [exact (proj1 (proj2 Hsr3)) | apply shrinks_eq; exact HV3]. }
+    (* a proper ancestor of a hidden location: the Remove fails, nothing changes *)
+    destruct (law_anc_dec _ _ _ _ _ _ _ _ _ Lb sub) as [Hanc | Hnanc].
+    { destruct (law_remove_anc _ _ _ _ _ _ _ _ _ Lb w2 sub Hq2 Hwf2 Hanc)
+        as (e & w3 & Hrun3 & _ & HV3 & Hsr3).
+      exact (Hsame e w3 Hrun3 HV3 Hsr3). }
     destruct (Vb w2 !! sub) as [nd|] eqn:Hb.
     - destruct (no_children_dec (Vb w2) sub) as [Hnc | Hnnc].
-      + destruct (law_remove_leaf _ _ _ _ _ _ _ Lb w2 sub nd Hq2 Hwf2 Hnlp2 Hb Hnc Hne)
+      + destruct (law_remove_leaf _ _ _ _ _ _ _ _ _ Lb w2 sub nd Hq2 Hwf2 Hnlp2 Hb Hnc Hne Hnanc)
           as (s' & (w3 & Hrun3 & HV3 & Hsr3) & Hnone & Heqv' & Hwf').
         assert (Hsh : shrinks (Vb w2) (Vb w3)).
         { rewrite HV3. intros p. destruct (str_eq_dec p sub) as [-> | Hp]; [left; exact Hnone | right].
@@ -1957,10 +1965,10 @@ Section FTry.
              rewrite (eqv_kind _ _ He). exact (inv_kind _ _ _ _ HI2 p fi n2 Hp E2).
           -- intros p Hp. rewrite Hi3 in Hp.
              exact (shrinks_snolinkpar _ _ p Hsh (inv_nolink _ _ _ _ HI2 p Hp)).
-      + destruct (law_remove_nonempty _ _ _ _ _ _ _ Lb w2 sub nd Hq2 Hwf2 Hnlp2 Hb Hnnc)
+      + destruct (law_remove_nonempty _ _ _ _ _ _ _ _ _ Lb w2 sub nd Hq2 Hwf2 Hnlp2 Hb Hnnc)
           as (e & w3 & Hrun3 & _ & HV3 & Hsr3).
         exact (Hsame e w3 Hrun3 HV3 Hsr3).
-    - destruct (law_remove_none _ _ _ _ _ _ _ Lb w2 sub Hq2 Hwf2 Hnlp2 Hb)
+    - destruct (law_remove_none _ _ _ _ _ _ _ _ _ Lb w2 sub Hq2 Hwf2 Hnlp2 Hb)
         as (e & w3 & Hrun3 & _ & HV3 & Hsr3).
       exact (Hsame e w3 Hrun3 HV3 Hsr3).
   Qed.
@@ -1972,7 +1980,7 @@ Section FTry.
     intros H Hnlp Hne. pose proof Hnlp as [[Hc _] _].
     destruct (guardedF (a_remove base) w sub [sub] H Hnlp (incl_self_cands sub Hc))
       as (r & w' & w2 & Hrun & Hnh & H2 & Hext & Hi & Hcase & Hsp & _).
-    { intros w0 Hq0 Hwf0 HV0. apply (law_user_remove _ _ _ _ _ _ _ Lb w0 sub Hq0 Hwf0); [| exact Hne].
+    { intros w0 Hq0 Hwf0 HV0. apply (law_user_remove _ _ _ _ _ _ _ _ _ Lb w0 sub Hq0 Hwf0); [| exact Hne].
       rewrite HV0. exact Hnlp. }
     { apply (flaw_remove _ _ _ _ _ HFb). }
     exists r, w'. split; [exact Hrun |].
@@ -2298,7 +2306,7 @@ Section FTry.
     - (* Create *)
       apply (finish_nameF _ n); [left; reflexivity |].
       destruct (handle_opF (a_create base) w n d H Hn (List.Forall_inv (Hfol eq_refl))) as (r & w' & Hrun & Hk & Hf).
-      + intros w2 Hq2 Hwf2 HVb2. apply (law_user_create _ _ _ _ _ _ _ Lb w2 n Hq2 Hwf2);
+      + intros w2 Hq2 Hwf2 HVb2. apply (law_user_create _ _ _ _ _ _ _ _ _ Lb w2 n Hq2 Hwf2);
           rewrite HVb2; [exact Hn | exact (List.Forall_inv (Hfol eq_refl))].
       + intros w2 r w' Hcall. right. exact Hcall.
       + apply (flaw_create _ _ _ _ _ HFb).
@@ -2309,7 +2317,7 @@ Section FTry.
       + apply (finish_nameF _ n); [left; reflexivity |]. cbn [negb] in Hfol.
         destruct (handle_opF (fun rn => a_openfile base rn fl0 perm) w n d H Hn (List.Forall_inv (Hfol eq_refl)))
           as (r & w' & Hrun & Hk & Hf).
-        * intros w2 Hq2 Hwf2 HVb2. apply (law_user_openfile _ _ _ _ _ _ _ Lb w2 n fl0 perm Hq2 Hwf2);
+        * intros w2 Hq2 Hwf2 HVb2. apply (law_user_openfile _ _ _ _ _ _ _ _ _ Lb w2 n fl0 perm Hq2 Hwf2);
             rewrite HVb2; [exact Hn | exact (List.Forall_inv (Hfol eq_refl))].
         * intros w2 r w' Hcall. left. exists fl0, perm. exact Hcall.
         * apply (flaw_openfile _ _ _ _ _ HFb).
@@ -2317,21 +2325,21 @@ Section FTry.
     - (* Mkdir *)
       apply (finish_nameF _ n); [left; reflexivity |].
       destruct (unit_opF (fun rn => a_mkdir base rn perm) w n [n] H Hn (incl_self_cands n Hc)) as (r & w' & Hrun & Hk & Hf).
-      + intros w2 Hq2 Hwf2 HVb2. apply (law_user_mkdir _ _ _ _ _ _ _ Lb w2 n perm Hq2 Hwf2).
+      + intros w2 Hq2 Hwf2 HVb2. apply (law_user_mkdir _ _ _ _ _ _ _ _ _ Lb w2 n perm Hq2 Hwf2).
         rewrite HVb2. exact Hn.
       + apply (flaw_mkdir _ _ _ _ _ HFb).
       + exists r, w'. split; [exact Hrun | split; [exact Hk | intros _; exact Hf]].
     - (* MkdirAll *)
       apply (finish_nameF _ n); [left; reflexivity |].
       destruct (unit_opF (fun rn => a_mkdirall base rn perm) w n (cands n) H Hn (incl_refl _)) as (r & w' & Hrun & Hk & Hf).
-      + intros w2 Hq2 Hwf2 HVb2. apply (law_user_mkdirall _ _ _ _ _ _ _ Lb w2 n perm Hq2 Hwf2).
+      + intros w2 Hq2 Hwf2 HVb2. apply (law_user_mkdirall _ _ _ _ _ _ _ _ _ Lb w2 n perm Hq2 Hwf2).
         rewrite HVb2. exact Hn.
       + apply (flaw_mkdirall _ _ _ _ _ HFb).
       + exists r, w'. split; [exact Hrun | split; [exact Hk | intros _; exact Hf]].
     - (* Remove *)
       apply (finish_nameF _ n); [left; reflexivity |].
       destruct (unit_opF (fun rn => a_remove base rn) w n [n] H Hn (incl_self_cands n Hc)) as (r & w' & Hrun & Hk & Hf).
-      + intros w2 Hq2 Hwf2 HVb2. apply (law_user_remove _ _ _ _ _ _ _ Lb w2 n Hq2 Hwf2); [| exact Hrm].
+      + intros w2 Hq2 Hwf2 HVb2. apply (law_user_remove _ _ _ _ _ _ _ _ _ Lb w2 n Hq2 Hwf2); [| exact Hrm].
         rewrite HVb2. exact Hn.
       + apply (flaw_remove _ _ _ _ _ HFb).
       + exists r, w'. split; [exact Hrun | split; [exact Hk | intros _; exact Hf]].
@@ -2355,35 +2363,35 @@ Section FTry.
     - (* Symlink *)
       apply (finish_nameF _ n); [left; reflexivity |].
       destruct (unit_opF (fun rn => a_symlink base t rn) w n [n] H Hn (incl_self_cands n Hc)) as (r & w' & Hrun & Hk & Hf).
-      + intros w2 Hq2 Hwf2 HVb2. apply (law_user_symlink _ _ _ _ _ _ _ Lb w2 t n Hq2 Hwf2).
+      + intros w2 Hq2 Hwf2 HVb2. apply (law_user_symlink _ _ _ _ _ _ _ _ _ Lb w2 t n Hq2 Hwf2).
         rewrite HVb2. exact Hn.
       + apply (flaw_symlink _ _ _ _ _ HFb).
       + exists r, w'. split; [exact Hrun | split; [exact Hk | intros _; exact Hf]].
     - (* Chmod *)
       apply (finish_nameF _ n); [left; reflexivity |].
       destruct (unit_opF (fun rn => a_chmod base rn m) w n [n] H Hn (incl_self_cands n Hc)) as (r & w' & Hrun & Hk & Hf).
-      + intros w2 Hq2 Hwf2 HVb2. apply (law_user_chmod _ _ _ _ _ _ _ Lb w2 n m Hq2 Hwf2);
+      + intros w2 Hq2 Hwf2 HVb2. apply (law_user_chmod _ _ _ _ _ _ _ _ _ Lb w2 n m Hq2 Hwf2);
           rewrite HVb2; [exact Hn | exact (List.Forall_inv (Hfol eq_refl))].
       + apply (flaw_chmod _ _ _ _ _ HFb).
       + exists r, w'. split; [exact Hrun | split; [exact Hk | intros _; exact Hf]].
     - (* Chown *)
       apply (finish_nameF _ n); [left; reflexivity |].
       destruct (unit_opF (fun rn => a_chown base rn u g) w n [n] H Hn (incl_self_cands n Hc)) as (r & w' & Hrun & Hk & Hf).
-      + intros w2 Hq2 Hwf2 HVb2. apply (law_user_chown _ _ _ _ _ _ _ Lb w2 n u g Hq2 Hwf2);
+      + intros w2 Hq2 Hwf2 HVb2. apply (law_user_chown _ _ _ _ _ _ _ _ _ Lb w2 n u g Hq2 Hwf2);
           rewrite HVb2; [exact Hn | exact (List.Forall_inv (Hfol eq_refl))].
       + apply (flaw_chown _ _ _ _ _ HFb).
       + exists r, w'. split; [exact Hrun | split; [exact Hk | intros _; exact Hf]].
     - (* Lchown *)
       apply (finish_nameF _ n); [left; reflexivity |].
       destruct (unit_opF (fun rn => a_lchown base rn u g) w n [n] H Hn (incl_self_cands n Hc)) as (r & w' & Hrun & Hk & Hf).
-      + intros w2 Hq2 Hwf2 HVb2. apply (law_user_lchown _ _ _ _ _ _ _ Lb w2 n u g Hq2 Hwf2).
+      + intros w2 Hq2 Hwf2 HVb2. apply (law_user_lchown _ _ _ _ _ _ _ _ _ Lb w2 n u g Hq2 Hwf2).
         rewrite HVb2. exact Hn.
       + apply (flaw_lchown _ _ _ _ _ HFb).
       + exists r, w'. split; [exact Hrun | split; [exact Hk | intros _; exact Hf]].
     - (* Chtimes *)
       apply (finish_nameF _ n); [left; reflexivity |].
       destruct (unit_opF (fun rn => a_chtimes base rn (Preset t)) w n [n] H Hn (incl_self_cands n Hc)) as (r & w' & Hrun & Hk & Hf).
-      + intros w2 Hq2 Hwf2 HVb2. apply (law_user_chtimes _ _ _ _ _ _ _ Lb w2 n (Preset t) Hq2 Hwf2);
+      + intros w2 Hq2 Hwf2 HVb2. apply (law_user_chtimes _ _ _ _ _ _ _ _ _ Lb w2 n (Preset t) Hq2 Hwf2);
           rewrite HVb2; [exact Hn | exact (List.Forall_inv (Hfol eq_refl))].
       + apply (flaw_chtimes _ _ _ _ _ HFb).
       + exists r, w'. split; [exact Hrun | split; [exact Hk | intros _; exact Hf]].
@@ -2394,7 +2402,7 @@ Section FTry.
     - (* Lstat *)
       apply finish_roF; [intros r w' D; discriminate D |]. unfold b_lstat.
       apply (ro_callF (a_lstat base n) ObInfo w H (flaw_lstat _ _ _ _ _ HFb n)).
-      apply (lstat_framed base Vb Vk tnb accb rhb whb Lb (unfault w) n Hq (inv_wf_b _ _ _ _ HI)). rewrite Vb_unfault. exact Hn.
+      apply (lstat_framed base Vb Vk tnb accb rhb whb hid anc Lb (unfault w) n Hq (inv_wf_b _ _ _ _ HI)). rewrite Vb_unfault. exact Hn.
     - (* Readlink *)
       apply finish_roF; [intros r w' D; discriminate D |]. unfold b_readlink.
       apply (ro_callF (a_readlink base n) ObStr w H (flaw_readlink _ _ _ _ _ HFb n)).
@@ -2419,12 +2427,12 @@ End FTry.
 (** * The theorems, as stated in Spec/Faults.v *)
 
 Theorem try_backup_fault :
-  forall base backup Vb Vk tnb tnk accb acck rhb rhk whb whk B0 tagb tagk,
-  try_backup_fault_stmt base backup Vb Vk tnb tnk accb acck rhb rhk whb whk B0 tagb tagk.
+  forall base backup Vb Vk tnb tnk accb acck rhb rhk whb whk hid anc B0 tagb tagk,
+  try_backup_fault_stmt base backup Vb Vk tnb tnk accb acck rhb rhk whb whk hid anc B0 tagb tagk.
 Proof.
-  intros base backup Vb Vk tnb tnk accb acck rhb rhk whb whk B0 tagb tagk.
+  intros base backup Vb Vk tnb tnk accb acck rhb rhk whb whk hid anc B0 tagb tagk.
   unfold try_backup_fault_stmt. cbv zeta. intros HLb HLk HFb HFk Hlinks Hsmall HwfB0 w p HI Hsingle Hnlp.
-  destruct (try_backupFw base backup Vb Vk tnb tnk accb acck rhb rhk whb whk B0 tagb tagk
+  destruct (try_backupFw base backup Vb Vk tnb tnk accb acck rhb rhk whb whk hid anc B0 tagb tagk
               HLb HLk HFb HFk Hlinks Hsmall HwfB0 (w_faults w) Hsingle w p (conj HI eq_refl) Hnlp)
     as (r & w' & Hrun & Hn & [HI' Hf'] & (HVb & Hm & Hd) & Htr & Hsp & Hfire).
   exists r, w'. split; [exact Hrun | split; [exact Hn | split; [exact HI' | split; [exact Hf' |]]]].
@@ -2434,12 +2442,12 @@ Proof.
 Qed.
 
 Theorem step_fault :
-  forall base backup Vb Vk tnb tnk accb acck rhb rhk whb whk B0 tagb tagk,
-  step_fault_stmt base backup Vb Vk tnb tnk accb acck rhb rhk whb whk B0 tagb tagk.
+  forall base backup Vb Vk tnb tnk accb acck rhb rhk whb whk hid anc B0 tagb tagk,
+  step_fault_stmt base backup Vb Vk tnb tnk accb acck rhb rhk whb whk hid anc B0 tagb tagk.
 Proof.
-  intros base backup Vb Vk tnb tnk accb acck rhb rhk whb whk B0 tagb tagk.
+  intros base backup Vb Vk tnb tnk accb acck rhb rhk whb whk hid anc B0 tagb tagk.
   unfold step_fault_stmt. cbv zeta. intros HLb HLb2 HLk HFb HFk Hlinks Hsmall HwfB0 o w HI Hsingle Hcov.
-  destruct (stepF base backup Vb Vk tnb tnk accb acck rhb rhk whb whk B0 tagb tagk
+  destruct (stepF base backup Vb Vk tnb tnk accb acck rhb rhk whb whk hid anc B0 tagb tagk
               HLb HLk HFb HFk Hlinks Hsmall HwfB0 (w_faults w) Hsingle HLb2 o w (conj HI eq_refl) Hcov)
     as (r & w' & Hrun & (Hn & Hc' & Hf' & Hinv & Hie & Hsp) & Hfire).
   exists r, w'. split; [exact Hrun | split; [exact Hn | split; [exact Hc' | split; [exact Hf' |]]]].
@@ -2448,8 +2456,8 @@ Qed.
 
 (** the invariant along a history under a single fault *)
 Lemma good_run_fault_inv :
-  forall base backup Vb Vk tnb tnk accb acck rhb rhk whb whk B0 tagb tagk,
-  base_laws base Vb Vk tnb accb rhb whb -> base_laws2 base Vb Vk tnb accb rhb whb ->
+  forall base backup Vb Vk tnb tnk accb acck rhb rhk whb whk hid anc B0 tagb tagk,
+  base_laws base Vb Vk tnb accb rhb whb hid anc -> base_laws2 base Vb Vk tnb accb rhb whb ->
   backup_laws backup Vb Vk tnk acck rhk whk ->
   fault_laws base Vb tagb rhb whb -> fault_laws backup Vk tagk rhk whk ->
   links_ok tnb tnk accb acck B0 -> all_small B0 -> swf B0 ->
@@ -2457,11 +2465,11 @@ Lemma good_run_fault_inv :
   InvF Vb Vk B0 w -> single (w_faults w) ->
   InvF Vb Vk B0 w' /\ w_faults w' = w_faults w /\ (spent w -> spent w').
 Proof.
-  intros base backup Vb Vk tnb tnk accb acck rhb rhk whb whk B0 tagb tagk HLb HLb2 HLk HFb HFk Hlinks Hsmall HwfB
+  intros base backup Vb Vk tnb tnk accb acck rhb rhk whb whk hid anc B0 tagb tagk HLb HLb2 HLk HFb HFk Hlinks Hsmall HwfB
          w ops w' Hrun.
   induction Hrun as [w | w o ops r w1 w2 Hcov Hstep Hks Hrest IH]; intros HI Hsingle.
   - split; [exact HI | split; [reflexivity | intros Hs; exact Hs]].
-  - destruct (step_fault base backup Vb Vk tnb tnk accb acck rhb rhk whb whk B0 tagb tagk
+  - destruct (step_fault base backup Vb Vk tnb tnk accb acck rhb rhk whb whk hid anc B0 tagb tagk
                 HLb HLb2 HLk HFb HFk Hlinks Hsmall HwfB o w HI Hsingle Hcov)
       as (r' & w1' & Hstep' & _ & _ & Hf1 & Hinv & _ & Hsp1 & _).
     rewrite Hstep in Hstep'. injection Hstep' as Er Ew. subst r' w1'.
